@@ -355,7 +355,7 @@ fn gen_random(seed: u64, index: u64, tier: Tier) -> Case {
         3 | 4 => output = Some((*r.pick(&["out", "build/out", "dist.d", "my out"])).to_string()),
         5 | 6 => {
             // existing directory with bystanders and stale files
-            let o = (*r.pick(&["out", "existing/out"])).to_string();
+            let o = (*r.pick(&["out", "existing/out", "dist.v2", "existing/out.d"])).to_string();
             b.nodes.push(Node::text(&format!("{}/keep.txt", o), "keep me"));
             if r.bool() {
                 b.nodes.push(Node::text(&format!("{}/stale.lua", o), "return 'stale'"));
@@ -948,6 +948,10 @@ fn judge_with(d: &Decoded, exp: &Expectation, run: &RunResult, check_errors: boo
             if !blames_faulty {
                 return Err(("error-for-healthy-file".into(), format!("reported error names no faulty file: {:?}", e.replace(&run.prefix, "<BASE>/"))));
             }
+        }
+        // the run stops at the first faulty file it meets, and there is one: it has to be reported
+        if check_errors && run.errors.is_empty() && run.setup_error.is_none() {
+            return Err(("faulty-file-not-reported:fail-fast".into(), format!("no error reported although the work set holds faulty files {:?}", exp.faulty.keys().collect::<Vec<_>>())));
         }
         Ok(())
     }
